@@ -326,4 +326,30 @@ theorem lanczosStep_checked {b : SparseOpt} {ay : List Nat} {st st' : LState} {m
   · simpa using horth
   · simpa using hginv
 
+/-- the initial block: when `lanczosInit` returns, the state is well formed (so
+`lanczosStep_release_ok` applies to every iteration of a run) -/
+theorem lanczosInit_wf {k : Nat} {cols : List (List Nat)} (hM : MatOK k cols) (dbg : Bool) {y0 ay : List Nat}
+    {st : LState} (hy0 : BlockOK cols.length y0)
+    (h : lanczosInit dbg (qsOptimize k cols) y0 = some (st, ay)) :
+    WFL cols.length st ∧ BlockOK cols.length ay := by
+  obtain ⟨ay', hay', hayOK⟩ := mulAabOpt_ok hM hy0
+  obtain ⟨bay, hbay, hbayOK⟩ := optMul_ok hM hayOK
+  obtain ⟨g, hg, _, _⟩ := blockDot_ok (x := bay) hbayOK.1 hbayOK
+  obtain ⟨aa, haa, _, haalt⟩ := blockDot_ok (x := ay') hayOK.1 hayOK
+  unfold lanczosInit at h
+  rw [hay'] at h
+  simp only [hbay, hg] at h
+  split at h
+  · rename_i ginv _
+    simp only [haa] at h
+    obtain ⟨y, hy, hyOK⟩ := blockMulAdd_ok (m := mul ginv aa) hy0 hayOK.1 (mul_lt _ aa haalt)
+    rw [hy] at h
+    simp only [Option.some.injEq, Prod.mk.injEq] at h
+    obtain ⟨h1, h2⟩ := h
+    subst h1; subst h2
+    exact ⟨{ lenV := rfl, lenI := rfl, lenM := rfl
+             wsOK := fun w hw => by simp only [List.mem_singleton] at hw; rw [hw]; exact Or.inr hayOK
+             lastW := ⟨_, rfl, hayOK⟩, lastV := ⟨_, rfl, hayOK⟩, yOK := hyOK }, hayOK⟩
+  · cases h
+
 end Ymq.Gf2Small
